@@ -1,1 +1,2 @@
 import Proofs.C01
+import Proofs.C05
